@@ -20,6 +20,10 @@ def c02(tier):
         # through continuations (the environment pointer is part of the captured state)
         {'kind': 'lang', 'count': 120 if q else 4000, 'cfgs': 'plain', 'shards': 1 if q else 6},
         {'kind': 'cont', 'count': 60 if q else 2000, 'cfgs': 'plain', 'shards': 1 if q else 4},
+        # captured variables live in environments that only closures point to: the same skeletons under the
+        # forced-collection schedules of C03
+        {'kind': 'scope', 'count': 10 if q else 300, 'cfgs': 'gc', 'args': ['l=3', 'mode=random'], 'shards': 1 if q else 4},
+        {'kind': 'scopeloop', 'count': 6 if q else 100, 'cfgs': 'gc'},
     ]
 
     def relevant(mm, sess, runs):
